@@ -1,8 +1,67 @@
 import RisorModel.Util
-/-! Line-protocol front end of the C07 model (stub until the model exists). -/
+import RisorModel.C07.Model
+/-!
+Line-protocol front end of the C07 model (requests after the leading `C07` field).
+
+  hist <inv> <inv> …      inv  = kind:beh:depth:pend:v:bump:bg:imp:pre:during
+                          kind ∈ run|runcode|call   beh ∈ normal|err|panic|overflow|selfcancel
+                          bg ∈ 0|1   pre, during = `_` (empty) or context ids joined by `.`
+  reply: ok <res> <res> … res  = implOutcome,sp,fp,halt,running,startCount,haltBeforeStart,specOutcome,staleFires,fpAtLeaf,importFails
+-/
 namespace Risor.C07
 
+def parseKind : String → Option Kind
+  | "run" => some .run | "runcode" => some .runCode | "call" => some .call | _ => none
+
+def parseBeh : String → Option Beh
+  | "normal" => some .normal | "err" => some .err | "panic" => some .panic
+  | "overflow" => some .overflow | "selfcancel" => some .selfCancel | _ => none
+
+def parseIds (s : String) : Option (List Nat) :=
+  if s = "_" then some [] else (s.splitOn ".").mapM String.toNat?
+
+def parseInv (s : String) : Option Inv :=
+  match s.splitOn ":" with
+  | [k, b, d, p, v, bu, bg, im, pre, du] => do
+    let kind ← parseKind k
+    let beh ← parseBeh b
+    let depth ← d.toNat?
+    let pend ← p.toNat?
+    let v ← v.toNat?
+    let bump ← bu.toNat?
+    let pre ← parseIds pre
+    let during ← parseIds du
+    pure { kind, beh, depth, pend, v, bump, bg := bg == "1", imp := im == "1", pre, during }
+  | _ => none
+
+def showOutcome : Outcome → String
+  | .ok v => "ok=" ++ toString v
+  | .okHook => "ok=hook"
+  | .errCanceled => "err=canceled"
+  | .errRuntime => "err=runtime"
+  | .errPanic => "err=panic"
+  | .errOverflow => "err=overflow"
+  | .errBusy => "err=busy"
+  | .errImport => "err=import"
+
+def b01 (b : Bool) : String := if b then "1" else "0"
+
+def resFrom (s : St) (k : Nat) : List Inv → List String
+  | [] => []
+  | inv :: rest =>
+    let pre := preState s k inv
+    let r := invoke s k inv
+    let line := String.intercalate ","
+      [showOutcome r.2, toString r.1.sp, toString r.1.fp, b01 r.1.halt, b01 r.1.running,
+       toString r.1.startCount, b01 pre.halt, showOutcome (specOutcome inv s.acc),
+       b01 (staleFires s k inv), toString (leafFp s k inv), b01 (importFails s k inv)]
+    line :: resFrom r.1 (k + 1) rest
+
 def handle : List String → String
-  | _ => "error\tnot-implemented"
+  | "hist" :: invs =>
+    match invs.mapM parseInv with
+    | some h => String.intercalate "\t" ("ok" :: resFrom (fresh 0) 0 h)
+    | none => "error\tbad-invocation"
+  | _ => "error\tunknown-request"
 
 end Risor.C07
